@@ -731,7 +731,8 @@ def execute(spec):
             rec = np.linalg.inv(np.array(dm._pcell.cell))  # columns: reciprocal basis
             worst, scale_ = 0.0, 1e-300
             qd = a["nac_q_direction"]
-            for q in list(a["qpoints"][:4]) + [[0.0, 0.0, 0.0]]:
+            # besides the run's q-points: Gamma, and q-points close to (but not at) Gamma, where the "K = G + q is zero" test decides
+            for q in list(a["qpoints"][:4]) + [[0.0, 0.0, 0.0], [1e-3, 0.0, 0.0], [0.0, 3e-4, -2e-4], [2e-5, 2e-5, 0.0]]:
                 q_cart = rec @ np.array(q, dtype="double")
                 qd_cart = None if qd is None else rec @ np.array(qd, dtype="double")
                 got = np.array(dm._get_c_recip_dipole_dipole(np.array(q_cart, dtype="double"), None if qd_cart is None else np.array(qd_cart, dtype="double")))
